@@ -202,3 +202,22 @@ Theorem timestampless_backend_rewrite_unseen_refuted :
     step h tps max_age [(k, e')] (Req TMS k (Some (etag_of_entry h e)) ImsAbsent UErr) = ([(k, e')], Some (Resp r)) /\
     r_status r = 304.
 Proof. exact timestampless_rewrite_unseen. Qed.
+
+(* on_error with authorize_stale: a stale tile that is served because the source fails keeps the validators of what
+   is stored (ETag, Last-Modified, never no-store; 200 + stored bytes or 304 + no body) and nothing is written; only
+   when no tile is stored the uncached fill image is sent, with no-store. *)
+Theorem stale_tile_served_during_outage_keeps_validators :
+  forall h tps max_age st svc k inm ims body e st' r,
+    lookup st k = Some e ->
+    step h tps max_age st (Refresh svc k inm ims (UFillStale body)) = (st', Some (Resp r)) ->
+    st' = st /\
+    (r_etag r = Some (etag_of_entry h e) /\ r_lastmod r = lastmod_of_entry tps e /\ r_nostore r = false /\
+     ((r_status r = 200 /\ r_body r = Some (e_body e)) \/
+      (r_status r = 304 /\ r_body r = None /\ r_ctype r = false))).
+Proof. exact step_refresh_authorize_stale_answer. Qed.
+
+Theorem authorize_stale_fill_uncached_no_store :
+  forall h tps max_age st svc k inm ims body,
+    lookup st k = None ->
+    step h tps max_age st (Req svc k inm ims (UFillStale body)) = (st, Some (Resp (nostore_resp body))).
+Proof. exact step_fill_stale_uncached. Qed.
